@@ -340,13 +340,74 @@ void sigma_grids(Ctx &c) {
     vnacal_new_free(vnp);
 }
 
+// ---- F: apply with frequency-DEPENDENT error terms ---------------------------------------------------
+// A 1x1 E12 calibration whose error terms (directivity, tracking, match) are straight lines in the frequency, solved
+// exactly from short / open / match.  The saved terms el, er, em are then linear too, which the interpolation
+// reproduces, so a device measured at ANY frequency of the band must be corrected exactly -- on the calibration grid,
+// on a grid of another length, and on grids of the SAME length that share the first points (or only the start) with
+// the calibration grid but differ later (a zoomed sweep).  The answer at a frequency must not depend on the rest
+// of the request.
+void apply_varying_terms(Ctx &c) {
+    int F = 3 + (int)c.draw(10);
+    double lo = 1e6 * (double)c.range(1, 1000), hi = lo * (1.5 + 10 * c.unit());
+    std::vector<double> cal = gen_grid(c, F, lo, hi);
+    LC a0(c.real(-.1, .1), c.real(-.1, .1)), a1(c.real(-.1, .1), c.real(-.1, .1)), b0(c.real(-.2, .2), c.real(-.2, .2)), b1(c.real(-.15, .15), c.real(-.15, .15)), t0(c.real(.6, 1.1), c.real(-.3, .3)), t1(c.real(-.3, .3), c.real(-.3, .3));
+    auto box_at = [&](double f) { long double t = (long double)((f - lo) / (hi - lo)); return OnePort{a0 + a1 * t, b0 + b1 * t, t0 + t1 * t}; };
+    VC vc; PBT_CHECK(c, vc.p, "C10.create", "vnacal_create failed");
+    vnacal_new_t *vnp = vnacal_new_alloc(vc.p, VNACAL_E12, 1, 1, F);
+    PBT_CHECK(c, vnp && vnacal_new_set_frequency_vector(vnp, cal.data()) == 0, "C10.new_alloc", "vnacal_new_alloc / set_frequency_vector failed");
+    static const int hs[3] = {VNACAL_SHORT, VNACAL_OPEN, VNACAL_MATCH}; static const LC gs[3] = {LC(-1, 0), LC(1, 0), LC(0, 0)};
+    for (int k = 0; k < 3; k++) {
+        std::vector<dcx> mv; for (double f : cal) mv.push_back(todcx(box_at(f).meas(gs[k])));
+        dcx *mm[1] = {mv.data()};
+        PBT_CHECK(c, vnacal_new_add_single_reflect_m(vnp, mm, 1, 1, hs[k], 1) == 0, "C10.add", "add failed: %s", vc.log.text().c_str());
+    }
+    PBT_CHECK(c, vnacal_new_solve(vnp) == 0, "C10.solve_failed", "solve failed: %s", vc.log.text().c_str());
+    int ci = vnacal_add_calibration(vc.p, "c", vnp); ci = vnacal_find_calibration(vc.p, "c");
+    PBT_CHECK(c, ci >= 0, "C10.add_calibration", "add_calibration failed");
+    vnacal_new_free(vnp);
+    c.label("F:apply-varying-terms");
+    LC dut(c.real(-.8, .8), c.real(-.8, .8));
+    vnadata_t *vd = vnadata_alloc(errlog_fn, &vc.log);
+    auto corrected = [&](const std::vector<double> &af, std::vector<LC> &out, const char *what) {
+        std::vector<dcx> mv; for (double f : af) mv.push_back(todcx(box_at(f).meas(dut)));
+        dcx *mm[1] = {mv.data()};
+        vc.log.clear();
+        int rc = vnacal_apply_m(vc.p, ci, af.data(), (int)af.size(), mm, 1, 1, vd);
+        PBT_CHECK(c, rc == 0, "C10.apply_in_range_refused", "apply (%s, %zu frequencies within [%g, %g]) refused: %s", what, af.size(), lo, hi, vc.log.text().c_str());
+        out.clear();
+        for (size_t f = 0; f < af.size(); f++) {
+            dcx sv = vnadata_get_cell(vd, (int)f, 0, 0); LC got(re_(sv), im_(sv)); out.push_back(got);
+            long double e = std::abs(got - dut);
+            c.track_max("apply with linear error terms: err/eps", (double)(e / EPS));
+            PBT_CHECK(c, e <= 1e7L * EPS, "C10.apply_interpolation", "apply (%s) at %.10g, request point %zu of %zu (calibration grid [%g..%g], %d points, error terms linear in f): S11 off by %.3Lg", what, af[f], f, af.size(), lo, hi, F, e);
+        }
+    };
+    std::vector<LC> out;
+    corrected(cal, out, "the calibration grid");
+    // same length, same start, smaller stop
+    { std::vector<double> z(F); double stop = lo + (hi - lo) * (0.3 + 0.6 * c.unit()); for (int i = 0; i < F; i++) z[i] = lo + (stop - lo) * i / (F - 1); z[0] = cal[0]; corrected(z, out, "zoomed sweep of the same length");
+      // a subset of that request must give the same answers
+      if (F >= 3) { std::vector<double> sub = {z[1], z[F - 1]}; std::vector<LC> o2; corrected(sub, o2, "two points of the zoomed sweep"); c.label("F:request-independence");
+        PBT_CHECK(c, std::abs(o2[0] - out[1]) <= 1e7L * EPS && std::abs(o2[1] - out[F - 1]) <= 1e7L * EPS, "C10.apply_depends_on_request", "the corrected value at a frequency depends on the other frequencies of the request (differences %.3Lg, %.3Lg)", std::abs(o2[0] - out[1]), std::abs(o2[1] - out[F - 1])); } }
+    // same length, the first k points are the calibration's own, the rest lie between later calibration points
+    { int k = 1 + (int)c.draw(F - 1); std::vector<double> m = cal; for (int i = k; i < F; i++) m[i] = i + 1 < F ? cal[i] + (cal[i + 1] - cal[i]) * (0.2 + 0.6 * c.unit()) : cal[i] - (cal[i] - std::max(cal[i - 1], m[i - 1])) * 0.5;
+      bool asc = true; for (int i = 1; i < F; i++) if (!(m[i] > m[i - 1])) asc = false;
+      if (asc) corrected(m, out, "same length, common leading points"); }
+    // another length
+    { int nf = 1 + (int)c.draw(2 * F); std::vector<double> o = gen_grid(c, std::max(nf, 2), lo, hi); if (nf == 1) o.resize(1); corrected(o, out, "a grid of another length"); }
+    vnadata_free(vd);
+    c.nontrivial();
+}
+
 } // namespace
 
 void pbt_property(Ctx &c) {
-    switch (c.weighted({5, 4, 2, 2})) {
+    switch (c.weighted({5, 4, 2, 2, 2})) {
     case 0: value_queries(c); break;
     case 1: standards_and_apply(c); break;
     case 2: noise_grids(c); break;
-    default: sigma_grids(c); break;
+    case 3: sigma_grids(c); break;
+    default: apply_varying_terms(c); break;
     }
 }
